@@ -6,6 +6,7 @@ import ast
 from ..absval import AbsRaise, ClassVal, Closure, Env, Interp, Native, Obj, Stub
 from ..astq import arg, ext_names, inside, is_name, loc, names_in, stmt_of
 from ..model import AnalysisError, Func, head, norm
+from . import roles
 from . import engine as E
 from . import rewriterules as W
 from . import runrules as R
@@ -165,7 +166,7 @@ def check(ctx):
                 limit = e.value
         if limit is None:
             raise AnalysisError("MAX_TRACEBACK_DEPTH constant not found")
-        rend = m.one_func("render_symbolic_traceback", "RENDER")
+        rend = render_role(m, gsf)
         n_eval = 0
         for nframes in (3, 4, 5, 6, 7, 10):
             f0 = frame_chain(nframes)
@@ -214,17 +215,17 @@ def check(ctx):
                 ctx.ob("C19.S2", f"{f.short}/Call-frame", ok, loc(f, c), "Call(...) receives its creator's frame parameter" if ok else
                        "Call(...) is constructed without the frame handed to its creator", norm(c)[:100])
     ctx.floor("C19.S2", "Call constructions", n_ctor, 1)
-    pcall = m.method("Plan", "_call", "CALLCTOR")
+    pcall = roles.call_ctor(m)
     # which frame the created calls carry: evaluated through the public methods (one capture, shared by every created call)
     from .evalrules import rule_frames_of_created_calls
     er_ = E.discover(m)
     ctx.run(rule_frames_of_created_calls, "C19.S2", R.discover(m, er_))
     # ---------------------------------------------------------------- S3
     radd, rsrc = m.method("Registry", "add", "S3"), m.method("Registry", "source", "S3")
-    rv = [c for c in radd.own_calls() if any(o[0] == "class" and o[1].name == "RegistryValue" for o in m.callee_origins(radd, c))]
+    rv = [c for c in radd.own_calls() if any(o[0] == "class" and o[1] is roles.registry_value(m) for o in m.callee_origins(radd, c))]
     ok = len(rv) == 1 and isinstance(arg(rv[0], None, "stack_frame"), ast.Call) and gsf in m.callee_funcs(radd, arg(rv[0], None, "stack_frame"))
     ctx.ob("C19.S3", "Registry.add/entry-frame", ok, loc(radd), "the entry stores the frame of the registry.add line" if ok else "Registry.add does not store the captured frame")
-    rv = [c for c in rsrc.own_calls() if any(o[0] == "class" and o[1].name == "RegistryValue" for o in m.callee_origins(rsrc, c))]
+    rv = [c for c in rsrc.own_calls() if any(o[0] == "class" and o[1] is roles.registry_value(m) for o in m.callee_origins(rsrc, c))]
     cs = [c for c in rsrc.own_calls() if pcall in m.callee_funcs(rsrc, c)]
     ok = len(rv) == 1 and len(cs) == 1 and isinstance(arg(rv[0], None, "stack_frame"), ast.Name) and cs[0].args and norm(cs[0].args[0]) == norm(arg(rv[0], None, "stack_frame"))
     ctx.ob("C19.S3", "Registry.source/one-frame", ok, loc(rsrc), "the source node and its entry share one captured frame" if ok else
@@ -246,10 +247,22 @@ def check(ctx):
     ctx.run(rule_translation_needs_call, "C19.S4", rr)
     ce = m.one_class("CallError", "S4")
     init = ce.methods["__init__"]
-    ok = any("render_symbolic_traceback(call.stack_frame)" in norm(n) for n in init.own_nodes() if isinstance(n, ast.Call)) and \
-        any(isinstance(n, ast.Assign) and norm(n.targets[0]) == "self.call" and norm(n.value) == "call" for n in init.own_nodes())
+    rend_ = render_role(m, gsf)
+    cp_ = init.pos_params[1] if len(init.pos_params) > 1 else "call"
+    ok = any(rend_ in m.callee_funcs(init, n) and n.args and norm(n.args[0]) == f"{cp_}.stack_frame" for n in init.own_calls()) and \
+        any(isinstance(n, ast.Assign) and norm(n.targets[0]) == f"{init.pos_params[0]}.call" and norm(n.value) == cp_ for n in init.own_nodes())
     ctx.ob("C19.S4", "CallError/renders-call-frame", ok, loc(init), "CallError keeps the call and renders its stack frame" if ok else
            "CallError does not render the failing call's own stack frame")
+
+
+def render_role(m, gsf):
+    """RENDER: the function of the traceback module that CallError's constructor renders the failing call's frame with."""
+    ce = m.one_class("CallError", "S4")  # public API
+    init = ce.methods.get("__init__")
+    found = {g for c in (init.own_calls() if init else ()) for g in m.callee_funcs(init, c) if g.module is gsf.module and g is not gsf and g.cls is None}
+    if len(found) != 1:
+        raise AnalysisError(f"role RENDER: expected CallError.__init__ to call one function of {gsf.module.name}, found {sorted(g.name for g in found)}")
+    return next(iter(found))
 
 
 def _anc(mod, n):
